@@ -67,11 +67,18 @@ pub struct Finding {
     pub what: String,
     pub expected: Value,
     pub observed: Value,
+    /// Structural class of the failure, for known findings that are a family of inputs with one cause
+    /// (the class predicate is computed from the case by the check, never from the observation alone).
+    pub class: Option<String>,
 }
 
 impl Finding {
     pub fn new(kind: &str, case: Value, what: impl Into<String>, expected: Value, observed: Value) -> Finding {
-        Finding { kind: kind.to_string(), case, what: what.into(), expected, observed }
+        Finding { kind: kind.to_string(), case, what: what.into(), expected, observed, class: None }
+    }
+    pub fn with_class(mut self, class: &str) -> Finding {
+        self.class = Some(class.to_string());
+        self
     }
     /// Key used in known_findings.json: SHA-256 of kind + canonical case.
     pub fn key(&self) -> String {
@@ -124,6 +131,7 @@ struct KnownEntry {
     property: String,
     status: String,
     key: String,
+    class: String,
     what: String,
 }
 
@@ -140,6 +148,7 @@ fn load_known(root: &std::path::Path) -> Vec<KnownEntry> {
             property: e["property"].as_str().unwrap_or("").to_string(),
             status: e["status"].as_str().unwrap_or("").to_string(),
             key: e["key"].as_str().unwrap_or("").to_string(),
+            class: e["class"].as_str().unwrap_or("").to_string(),
             what: e["what"].as_str().unwrap_or("").to_string(),
         });
     }
@@ -163,14 +172,24 @@ pub fn finalize(ctx: &Ctx, mut out: Outcome) -> i32 {
     let _ = std::fs::remove_dir_all(&replay_dir);
     let mut known_seen: Vec<String> = vec![];
     let mut unlisted: Vec<(String, Finding)> = vec![];
+    let mut class_counts: BTreeMap<String, (u64, String)> = BTreeMap::new();
     for k in &order {
         let f = &by_key[k];
-        if let Some(e) = known.iter().find(|e| e.status == "known" && e.property == ctx.id && &e.key == k) {
+        if let Some(e) = known.iter().find(|e| e.status == "known" && e.property == ctx.id && !e.key.is_empty() && &e.key == k) {
             println!("KNOWN-FINDING: property={} {}", ctx.id, e.what);
             known_seen.push(e.what.clone());
+        } else if let Some(e) = known.iter().find(|e| e.status == "known" && e.property == ctx.id && !e.class.is_empty() && f.class.as_deref() == Some(e.class.as_str())) {
+            // a listed family of inputs with one structural cause: one line per class, with a count and an example
+            let c = class_counts.entry(e.class.clone()).or_insert((0, e.what.clone()));
+            c.0 += 1;
         } else {
             unlisted.push((k.clone(), f.clone()));
         }
+    }
+    for (class, (n, what)) in &class_counts {
+        let example = order.iter().filter_map(|k| by_key.get(k)).find(|f| f.class.as_deref() == Some(class.as_str())).map(|f| f.what.clone()).unwrap_or_default();
+        println!("KNOWN-FINDING: property={} {} [class {class}: {n} case(s) in this run, e.g. {}]", ctx.id, what, example.chars().take(160).collect::<String>());
+        known_seen.push(format!("{what} [{n} cases]"));
     }
     // Confirm each unlisted finding by replaying it twice, without the explorer.
     let mut confirmed: Vec<(String, Finding)> = vec![];
